@@ -95,6 +95,7 @@ type Node struct {
 	Timer *VTimer
 	D     *dbft.DBFT[H]
 
+	cfgDirty   bool
 	initLedger *LedgerRec // the ledger given to the library at the last Start / Reset
 	// application ledger
 	Height  uint32
@@ -116,6 +117,8 @@ type Node struct {
 	cbs       []CbRec
 	Accepted  map[uint32][]*Block
 	notEarly  map[string]bool
+	nilEarly  map[string]bool
+	nilSeen   map[[2]uint32]bool
 	verified  map[string]bool // blocks / pre-blocks the verification callback accepted in this (h, v)
 	started   bool
 	inCall    bool
@@ -133,7 +136,7 @@ func newLogger() *zap.Logger {
 func NewNode(id int, cfg NodeCfg, w World, clk *Clock) *Node {
 	n := &Node{ID: id, Key: &Key{ID: id}, Cfg: cfg, W: w, Clk: clk,
 		Known: map[H]Tx{}, BadTx: map[H]bool{}, Accepted: map[uint32][]*Block{},
-		notEarly: map[string]bool{}, verified: map[string]bool{}}
+		notEarly: map[string]bool{}, nilEarly: map[string]bool{}, nilSeen: map[[2]uint32]bool{}, verified: map[string]bool{}}
 	n.Timer = &VTimer{clk: clk, node: n}
 	n.build()
 	return n
@@ -155,6 +158,9 @@ func (n *Node) verifyPayload(kind string) func(p dbft.ConsensusPayload[H]) error
 		// (no proposal stored yet, or the application's NewBlockFromContext yields no block)
 		if ok && (kind == "Commit" || kind == "PreCommit") && n.D.RequestSentOrReceived() && q.V == n.D.ViewNumber && !n.NilBlock {
 			n.notEarly[q.Key()] = true
+		}
+		if ok && (kind == "Commit" || kind == "PreCommit") && n.D.RequestSentOrReceived() && q.V == n.D.ViewNumber && n.NilBlock {
+			n.nilEarly[q.Key()] = true // the proposal was there, but the application's NewBlockFromContext yielded no block
 		}
 		r := q.Rec()
 		n.cb(CbRec{K: "Verify" + kind, M: &r, Ok: boolp(ok)})
@@ -258,6 +264,7 @@ func (n *Node) build() {
 		dbft.WithNewBlockFromContext[H](func(ctx *dbft.Context[H]) dbft.Block[H] {
 			n.cb(CbRec{K: "NewBlockFromContext"})
 			if n.NilBlock {
+				n.nilSeen[[2]uint32{ctx.BlockIndex, uint32(ctx.ViewNumber)}] = true
 				return nil
 			}
 			return &Block{Rec: ctxBlockRec(ctx), node: n}
@@ -371,6 +378,7 @@ type Slot struct {
 	B      *BlockRec `json:"b,omitempty"`
 	Valid  *bool     `json:"valid,omitempty"`
 	Early  *bool     `json:"early,omitempty"`
+	ENil   *bool     `json:"enil,omitempty"` // stored while the proposal was known but NewBlockFromContext returned nothing
 	NV     *int      `json:"nv,omitempty"`
 	Ts     *uint64   `json:"ts,omitempty"`
 	Reason *int      `json:"reason,omitempty"`
@@ -435,6 +443,7 @@ type PState struct {
 	RttOld    int64      `json:"rttOld"`
 	Tpb       int64      `json:"tpb"`
 	MaxTpb    int64      `json:"maxTpb"`
+	NilSeen   bool       `json:"nilSeen"`    // the application's NewBlockFromContext returned no block at least once in this height and view
 	VerifOk   bool       `json:"verifiedOk"` // application accepted the (pre-)block of the stored proposal in this view
 }
 
@@ -489,6 +498,7 @@ func (n *Node) proj(handed *Block, handedPre *PreBlock) *PState {
 	vs := d.VerifSnapshot()
 	s.H, s.V, s.N, s.Me = c.BlockIndex, int(c.ViewNumber), len(c.Validators), c.MyIndex
 	s.Watch = c.WatchOnly()
+	s.NilSeen = n.nilSeen[[2]uint32{c.BlockIndex, uint32(c.ViewNumber)}]
 	s.Primary = int(c.PrimaryIndex)
 	s.Amev = d.Config.AntiMEVExtensionEnablingHeight >= 0 && uint32(d.Config.AntiMEVExtensionEnablingHeight) <= c.BlockIndex
 	for _, v := range c.Validators {
@@ -554,7 +564,8 @@ func (n *Node) proj(handed *Block, handedPre *PreBlock) *PState {
 				valid = reqStored && string(raw) == string(MakeData(keyID(pub), ctxRec.hash("PB")))
 			}
 			early := !n.notEarly[q.Key()]
-			r = append(r, Slot{K: kind, V: &v, S: &sr.S, B: &sr.B, Valid: &valid, Early: &early})
+			enil := n.nilEarly[q.Key()]
+			r = append(r, Slot{K: kind, V: &v, S: &sr.S, B: &sr.B, Valid: &valid, Early: &early, ENil: &enil})
 		}
 		return r
 	}
@@ -694,6 +705,11 @@ func (n *Node) call(name string, arg any, f func()) *Line {
 		led = *n.initLedger
 	}
 	l := &Line{N: n.ID, Now: n.Clk.Now, Call: name, Arg: arg, Ledger: led, App: n.appRec()}
+	if n.cfgDirty { // the configuration callbacks answer differently since the previous call (watch-only flag set)
+		c := n.Cfg
+		l.Cfg = &c
+		n.cfgDirty = false
+	}
 	n.cbs = []CbRec{}
 	n.nAPI++
 	func() {
@@ -722,6 +738,7 @@ func indexOfH(l []H, x H) int {
 func (n *Node) newEpochObs() {
 	n.Requested = nil
 	n.notEarly = map[string]bool{}
+	n.nilEarly = map[string]bool{}
 	n.verified = map[string]bool{}
 }
 
@@ -754,6 +771,15 @@ func (n *Node) Transaction(t Tx) *Line {
 }
 func (n *Node) NewTransaction() *Line {
 	return n.call("OnNewTransaction", NoArg{}, func() { n.D.OnNewTransaction() })
+}
+
+// SetWatch: from now on the application's WatchOnly callback answers true (the operator demotes the validator to an observer
+// without restarting it). The next trace line carries the new configuration.
+func (n *Node) SetWatch() {
+	if !n.Cfg.Watch {
+		n.Cfg.Watch = true
+		n.cfgDirty = true
+	}
 }
 
 // Restart replaces the DBFT object by a fresh one (amnesia), ledger kept.
